@@ -17,10 +17,12 @@ def create_jacobians(dict_def: dict[str, Any]) -> list[str]:
             params.extend(create_jacobians(element))
     elif isinstance(dict_def, dict):
         if 'type' in dict_def and dict_def['type'] == 'TransformedParameter':
+            # RescaledRateTransform feeds the clock model only: no density is placed
+            # on the rescaled rates and the transform defines no log-Jacobian
             if not (
                 dict_def['transform'] == 'torch.distributions.AffineTransform'
                 and dict_def['parameters']['scale'] == 1.0
-            ):
+            ) and dict_def['transform'] != 'RescaledRateTransform':
                 params.append(dict_def['id'])
         for value in dict_def.values():
             params.extend(create_jacobians(value))
